@@ -19,7 +19,7 @@ def n_registered():
 
 
 # ----------------------------------------------------------------------------- projections
-PROJ = re.compile(r"^(\w+),(\d)(\d),f=([^,]*),x=(\d),pp=(\d),ping=([^,]*),pong=([^,]*),sf=(.),ff=(.),h=(\d),s=(\d),w=(\d+),os=(\d),H=(.*)$")
+PROJ = re.compile(r"^(\w+),(\d)(\d),f=([^,]*),x=([\d?]),pp=([\d?]),ping=([^,]*),pong=([^,]*),sf=(.),ff=(.),h=(\d),s=(\d),w=(\d+),os=(\d),H=(.*)$")
 
 
 def parse_proj(p):
@@ -32,7 +32,7 @@ def parse_proj(p):
         if e:
             ty, who = e.split(".")
             table.setdefault(int(ty), []).append(who)
-    return dict(cs=cs, ic=int(ic), hc=int(hc), fatal=f, x=int(x), pp=int(pp), ping=ping, pong=pong, sf=sf, ff=ff,
+    return dict(cs=cs, ic=int(ic), hc=int(hc), fatal=f, x=None if x == "?" else int(x), pp=None if pp == "?" else int(pp), ping=ping, pong=pong, sf=sf, ff=ff,
                 h=int(h), s=int(s), w=int(w), os=int(os_), table=table)
 
 
